@@ -82,8 +82,8 @@ C = {
          "through an ideal directory (json.load o json.dump = keys as strings, tuples as lists, numbers unchanged, "
          "non-JSON objects refused; np.load o np.save = equal array, same dtype): additionally lineage ids, loaded "
          "measurements, every segmentation cell and the dtype, scale (symbolic voxel sizes), feature registry, ndim. "
-         "Not claimed: GEFF segmentation round trips, display-name CSV "
-         "headers, subset exports. Bound: 3 / 4 node slots, single-key and per-axis position storage, 2D and 3D; "
+         "A registered custom node feature round-trips through GEFF (loaded, not recomputed) and a display-name CSV. "
+         "Not claimed: GEFF segmentation round trips, subset exports. Bound: 3 / 4 node slots, single-key and per-axis position storage, 2D and 3D; "
          "internal format 2-3 slots, 2x1x2 label array."),
  "C15": ("real filter_graph_with_ancestors + export_to_geff / export_to_csv up to the I/O boundary: exported node set = "
          "selection + ancestors, every edge among them, no missing parent, exported array cell = label if kept else 0",
